@@ -2,13 +2,15 @@
 From TxV Require Import Core.Base Model.PegSyntax Model.Peg.
 
 (* ---------------------------------------------------------------- the class *)
+Definition is_unord (k : kind) : bool := match k with KUnord => true | _ => false end.
 Definition node_ctx_free (nd : node) : bool :=
   match n_ws nd, n_skipws nd with
-  | None, None => negb (n_eolterm nd)
+  | None, None => negb (n_eolterm nd) && negb (is_unord (n_kind nd))
   | _, _ => false
   end.
 
-(* no node changes the whitespace context, and there is no comment model *)
+(* no node changes the whitespace context, and there is no comment model
+   (partial: unordered groups are also excluded, see design/C19.md) *)
 Definition ctx_constant (g : grammar) : bool :=
   forallb node_ctx_free (g_nodes g) && match g_comments g with None => true | Some _ => false end.
 
@@ -37,4 +39,234 @@ Lemma refuted_probe :
   ctx_constant g_probe = false /\
   accepts (run g_probe c_default (fun _ _ => None) false 100 in_probe) = true /\
   run g_probe c_default (fun _ _ => None) true 100 in_probe = SyntaxErr 1.
+Proof. vm_compute. repeat split. Qed.
+
+(* ================================================================ state algebra *)
+Lemma set_pos_same s : set_pos (pos s) s = s.
+Proof. destruct s; reflexivity. Qed.
+Lemma set_pos_set_pos p q s : set_pos p (set_pos q s) = set_pos p s.
+Proof. destruct s; reflexivity. Qed.
+Lemma pos_set_pos p s : pos (set_pos p s) = p.
+Proof. reflexivity. Qed.
+
+Lemma lookup_upd_same k v m : lookup k (upd k v m) = Some v.
+Proof.
+  induction m as [|[k' v'] m IH]; cbn [upd lookup].
+  - now rewrite Nat.eqb_refl.
+  - destruct (Nat.eqb k k') eqn:E; cbn [lookup]; [now rewrite Nat.eqb_refl | now rewrite E].
+Qed.
+Lemma lookup_upd_other k k2 v m : k2 <> k -> lookup k2 (upd k v m) = lookup k2 m.
+Proof.
+  intro Hne. induction m as [|[k' v'] m IH]; cbn [upd lookup].
+  - destruct (Nat.eqb k2 k) eqn:E; [apply Nat.eqb_eq in E; contradiction | reflexivity].
+  - destruct (Nat.eqb k k') eqn:E; cbn [lookup].
+    + apply Nat.eqb_eq in E; subst k'.
+      destruct (Nat.eqb k2 k) eqn:E2; [apply Nat.eqb_eq in E2; contradiction | reflexivity].
+    + destruct (Nat.eqb k2 k'); [reflexivity | exact IH].
+Qed.
+Lemma upd_idem k v m : lookup k m = Some v -> upd k v m = m.
+Proof.
+  induction m as [|[k' v'] m IH]; cbn [upd lookup]; [discriminate|].
+  destruct (Nat.eqb k k') eqn:E; intro H.
+  - apply Nat.eqb_eq in E. congruence.
+  - now rewrite IH.
+Qed.
+
+Definition nm_le (a b : option nat) : Prop :=
+  match a, b with
+  | None, _ => True
+  | Some x, Some y => x <= y
+  | Some _, None => False
+  end.
+Lemma nm_le_refl a : nm_le a a.
+Proof. destruct a; cbn; auto. Qed.
+Lemma nm_le_trans a b c : nm_le a b -> nm_le b c -> nm_le a c.
+Proof. destruct a, b, c; cbn; try tauto; lia. Qed.
+
+Definition cpos_le (c c' : list (nat * nat)) : Prop :=
+  forall k v, lookup k c = Some v -> lookup k c' = Some v.
+Definition cpos_id (c : list (nat * nat)) : Prop :=
+  forall k v, lookup k c = Some v -> v = k.
+
+Lemma cpos_id_upd k c : cpos_id c -> cpos_id (upd k k c).
+Proof.
+  intros H k2 v. destruct (Nat.eq_dec k2 k) as [->|Hne].
+  - rewrite lookup_upd_same. congruence.
+  - rewrite lookup_upd_other by assumption. apply H.
+Qed.
+Lemma cpos_le_upd k c : cpos_id c -> cpos_le c (upd k k c).
+Proof.
+  intros H k2 v Hl. destruct (Nat.eq_dec k2 k) as [->|Hne].
+  - rewrite lookup_upd_same. now rewrite (H _ _ Hl).
+  - now rewrite lookup_upd_other.
+Qed.
+
+(* s' has the same context and cache as s, and its nm / comment_positions extend those of s
+   (the position is unconstrained) *)
+Record dom (s s' : st) : Prop := mkDom {
+  d_ws : ws s' = ws s;
+  d_rws : real_ws s' = real_ws s;
+  d_skip : skipws s' = skipws s;
+  d_eol : eolterm s' = eolterm s;
+  d_cmt : in_cmt s' = in_cmt s;
+  d_cache : cache s' = cache s;
+  d_nm : nm_le (nm s) (nm s');
+  d_cpos : cpos_le (cpos s) (cpos s') }.
+
+Lemma dom_refl s : dom s s.
+Proof. constructor; auto using nm_le_refl. intros k v H; exact H. Qed.
+Lemma dom_trans a b c : dom a b -> dom b c -> dom a c.
+Proof.
+  intros [] []; constructor; try congruence.
+  - eapply nm_le_trans; eassumption.
+  - intros k v H. auto.
+Qed.
+Lemma dom_set_pos_r p s s' : dom s s' -> dom s (set_pos p s').
+Proof. intros []; constructor; assumption. Qed.
+Lemma dom_set_pos_l p s s' : dom s s' -> dom (set_pos p s) s'.
+Proof. intros []; constructor; assumption. Qed.
+Lemma dom_set_pos_l_inv p s s' : dom (set_pos p s) s' -> dom s s'.
+Proof. intros []; constructor; assumption. Qed.
+Lemma dom_reg_fail p s : dom s (reg_fail p s).
+Proof.
+  unfold reg_fail. destruct (nm s) as [q|] eqn:E.
+  - destruct (in_cmt s); [apply dom_refl|].
+    destruct (Nat.ltb q p) eqn:L; [|apply dom_refl].
+    constructor; try reflexivity.
+    + cbn. rewrite E. cbn. apply Nat.ltb_lt in L. lia.
+    + intros k v H; exact H.
+  - constructor; try reflexivity.
+    + rewrite E. exact I.
+    + intros k v H; exact H.
+Qed.
+Lemma cpos_reg_fail p s : cpos (reg_fail p s) = cpos s.
+Proof. unfold reg_fail. destruct (nm s); [destruct (in_cmt s); [|destruct (Nat.ltb _ _)]|]; reflexivity. Qed.
+Lemma pos_reg_fail p s : pos (reg_fail p s) = pos s.
+Proof. unfold reg_fail. destruct (nm s); [destruct (in_cmt s); [|destruct (Nat.ltb _ _)]|]; reflexivity. Qed.
+
+Lemma in_cmt_reg_fail p s : in_cmt (reg_fail p s) = in_cmt s.
+Proof. unfold reg_fail. destruct (nm s); [destruct (in_cmt s) eqn:E; [|destruct (Nat.ltb _ _)]|]; auto. Qed.
+Lemma nm_reg_fail p s : exists q, nm (reg_fail p s) = Some q /\ (in_cmt s = false -> p <= q).
+Proof.
+  unfold reg_fail. destruct (nm s) as [q|] eqn:E.
+  - destruct (in_cmt s) eqn:C; [exists q; split; [assumption | discriminate]|].
+    destruct (Nat.ltb q p) eqn:L.
+    + exists p. split; [reflexivity | lia].
+    + exists q. split; [assumption | apply Nat.ltb_ge in L; lia].
+  - exists p. split; [reflexivity | lia].
+Qed.
+
+(* registering a failure at p in a state whose nm already dominates that of the first run *)
+Lemma reg_fail_saturated p s s' :
+  dom (reg_fail p s) s' -> reg_fail p s' = s'.
+Proof.
+  intros D. pose proof (d_nm _ _ D) as Hn. pose proof (d_cmt _ _ D) as Hc.
+  rewrite in_cmt_reg_fail in Hc.
+  destruct (nm_reg_fail p s) as [q [Hq Hpq]]. rewrite Hq in Hn.
+  unfold reg_fail. destruct (nm s') as [q'|] eqn:E'; [|contradiction]. cbn in Hn.
+  destruct (in_cmt s') eqn:C'; [reflexivity|].
+  destruct (Nat.ltb q' p) eqn:L'; [|reflexivity].
+  apply Nat.ltb_lt in L'. try rewrite C' in Hc. symmetry in Hc. specialize (Hpq Hc). lia.
+Qed.
+
+(* ---------------------------------------------------------------- further witnesses (dumped by tools/pegdump.py) *)
+(* Model: ('a' X 'q')*[eolterm] 'a' X 'r'; X: 'x' 'y'; *)
+Definition g_eol : grammar := (mkGrammar [mkNode KSeq [1;11] None false [77;111;100;101;108]%N true false None None;
+  mkNode KSeq [2;9;5;10] None false [77;111;100;101;108]%N true false None None;
+  mkNode KStar [3] None true []%N false false None None;
+  mkNode KSeq [4;5;8] None false []%N false false None None;
+  mkNode (KStr [97]%N None) [] None false []%N false false None None;
+  mkNode KSeq [6;7] None false [88]%N true false None None;
+  mkNode (KStr [120]%N None) [] None false []%N false false None None;
+  mkNode (KStr [121]%N None) [] None false []%N false false None None;
+  mkNode (KStr [113]%N None) [] None false []%N false false None None;
+  mkNode (KStr [97]%N None) [] None false []%N false false None None;
+  mkNode (KStr [114]%N None) [] None false []%N false false None None;
+  mkNode KEOF [] None false [69;79;70]%N false false None None] 0 None).
+Definition in_eol0 : list N := [97;32;120;10;121;32;114]%N.  (* 'a x\ny r' *)
+Definition tbl_eol0 : list ((nat * nat) * nat) := (@nil ((nat * nat) * nat)).
+(* memoization=False: P:n0(n1(t9@0+1-,n5(t6@2+1-,t7@4+1-),t10@6+1-),eof@7+0-) *)
+(* memoization=True: E:3 *)
+(* Model: ('k' | CB) 'r'; Comment: CL | CB; CL: /\/\/.*?$/; CB: '#' 'x'; *)
+Definition g_cmt : grammar := (mkGrammar [mkNode KSeq [1;8] None false [77;111;100;101;108]%N true false None None;
+  mkNode KSeq [2;7] None false [77;111;100;101;108]%N true false None None;
+  mkNode KChoice [3;4] None false []%N false false None None;
+  mkNode (KStr [107]%N None) [] None false []%N false false None None;
+  mkNode KSeq [5;6] None false [67;66]%N true false None None;
+  mkNode (KStr [35]%N None) [] None false []%N false false None None;
+  mkNode (KStr [120]%N None) [] None false []%N false false None None;
+  mkNode (KStr [114]%N None) [] None false []%N false false None None;
+  mkNode KEOF [] None false [69;79;70]%N false false None None;
+  mkNode KChoice [10;4] None false [67;111;109;109;101;110;116]%N true false None None;
+  mkNode (KRegex 0) [] None false [67;76]%N true false None None] 0 (Some 9)).
+Definition in_cmt0 : list N := [35;47;47;32;99;10;32;120;32;114]%N.  (* '#// c\n x r' *)
+Definition tbl_cmt0 : list ((nat * nat) * nat) := [((0,1),4)].
+(* memoization=False: P:n0(n1(n4(t5@0+1-,t6@7+1-),t7@9+1-),eof@10+0-) *)
+(* memoization=True: E:0 *)
+(* Model: xs+=X[','] ';' | xs+=X[','] '.'; X: 'x' | /\d+/; *)
+Definition g_ex : grammar := (mkGrammar [mkNode KSeq [1;13] None false [77;111;100;101;108]%N true false None None;
+  mkNode KChoice [2;9] None false [77;111;100;101;108]%N true false None None;
+  mkNode KSeq [3;8] None false []%N false false None None;
+  mkNode KPlus [4] (Some 7) false [95;95;97;115;103;110;95;111;110;101;111;114;109;111;114;101]%N true false None None;
+  mkNode KChoice [5;6] None false [88]%N true false None None;
+  mkNode (KStr [120]%N None) [] None false []%N false false None None;
+  mkNode (KRegex 0) [] None false []%N false false None None;
+  mkNode (KStr [44]%N None) [] None false [115;101;112]%N false false None None;
+  mkNode (KStr [59]%N None) [] None false []%N false false None None;
+  mkNode KSeq [10;12] None false []%N false false None None;
+  mkNode KPlus [4] (Some 11) false [95;95;97;115;103;110;95;111;110;101;111;114;109;111;114;101]%N true false None None;
+  mkNode (KStr [44]%N None) [] None false [115;101;112]%N false false None None;
+  mkNode (KStr [46]%N None) [] None false []%N false false None None;
+  mkNode KEOF [] None false [69;79;70]%N false false None None] 0 None).
+Definition in_ex0 : list N := [120;44;32;49;44;32;120;46]%N.  (* 'x, 1, x.' *)
+Definition tbl_ex0 : list ((nat * nat) * nat) := [((0,3),1)].
+(* memoization=False: P:n0(n1(n10(n4(t5@0+1),t11@1+1,n4(t6@3+1),t11@4+1,n4(t5@6+1)),t12@7+1-),eof@8+0-) *)
+(* memoization=True: P:n0(n1(n10(n4(t5@0+1),t11@1+1,n4(t6@3+1),t11@4+1,n4(t5@6+1)),t12@7+1-),eof@8+0-) *)
+Definition in_ex1 : list N := [120;44;32;49;44;32;120;33]%N.  (* 'x, 1, x!' *)
+Definition tbl_ex1 : list ((nat * nat) * nat) := [((0,3),1)].
+(* memoization=False: E:7 *)
+(* memoization=True: E:7 *)
+
+Lemma refuted_eolterm :
+  ctx_constant g_eol = false /\
+  accepts (run g_eol c_default (orc_of tbl_eol0) false 100 in_eol0) = true /\
+  run g_eol c_default (orc_of tbl_eol0) true 100 in_eol0 = SyntaxErr 3.
+Proof. vm_compute. repeat split. Qed.
+
+Lemma refuted_comment_shared :
+  ctx_constant g_cmt = false /\
+  accepts (run g_cmt c_default (orc_of tbl_cmt0) false 100 in_cmt0) = true /\
+  run g_cmt c_default (orc_of tbl_cmt0) true 100 in_cmt0 = SyntaxErr 0.
+Proof. vm_compute. repeat split. Qed.
+
+(* non-vacuity: a context-constant grammar, an accepted and a rejected input, memoization on *)
+Lemma example_in_class :
+  ctx_constant g_ex = true /\
+  accepts (run g_ex c_default (orc_of tbl_ex0) true 100 in_ex0) = true /\
+  run g_ex c_default (orc_of tbl_ex0) true 100 in_ex0 = run g_ex c_default (orc_of tbl_ex0) false 100 in_ex0 /\
+  run g_ex c_default (orc_of tbl_ex1) false 100 in_ex1 = SyntaxErr 7 /\
+  run g_ex c_default (orc_of tbl_ex1) true 100 in_ex1 = SyntaxErr 7.
+Proof. vm_compute. repeat split. Qed.
+
+(* Model: B 'q' | 'b'; B: /[^;\n]+/ 'x'; Comment: /\/\/.*?$/ | /\/\*(.|\n)*?\*\//; *)
+Definition g_cm2 : grammar := (mkGrammar [mkNode KSeq [1;8] None false [77;111;100;101;108]%N true false None None;
+  mkNode KChoice [2;7] None false [77;111;100;101;108]%N true false None None;
+  mkNode KSeq [3;6] None false []%N false false None None;
+  mkNode KSeq [4;5] None false [66]%N true false None None;
+  mkNode (KRegex 0) [] None false []%N false false None None;
+  mkNode (KStr [120]%N None) [] None false []%N false false None None;
+  mkNode (KStr [113]%N None) [] None false []%N false false None None;
+  mkNode (KStr [98]%N None) [] None false []%N false false None None;
+  mkNode KEOF [] None false [69;79;70]%N false false None None;
+  mkNode KChoice [10;11] None false [67;111;109;109;101;110;116]%N true false None None;
+  mkNode (KRegex 1) [] None false []%N false false None None;
+  mkNode (KRegex 2) [] None false []%N false false None None] 0 (Some 9)).
+Definition in_cm2 : list N := [98;47;47;10;47;42;42;47]%N.  (* 'b//\n/**/' *)
+Definition tbl_cm2 : list ((nat * nat) * nat) := [((0,0),3);((0,1),2);((0,2),1);((0,4),4);((0,5),3);((0,6),2);((0,7),1);((1,1),2);((2,4),4)].
+
+(* a Comment rule that is not a single terminal is itself memoized; Arpeggio consults
+   comment_positions even while it is parsing comments, and the cache hides that *)
+Lemma refuted_comment_model :
+  run g_cm2 c_default (orc_of tbl_cm2) false 100 in_cm2 = SyntaxErr 8 /\
+  accepts (run g_cm2 c_default (orc_of tbl_cm2) true 100 in_cm2) = true.
 Proof. vm_compute. repeat split. Qed.
